@@ -55,7 +55,12 @@ def _builtin_exceptions():
 
 
 OUTCOMES = ["value-int", "value-text", "value-tuple", "reference", "tuple-with-ref", "bad-label", "unknown-handler", "wrong-arity",
-            "args-not-a-pair", "raise-with-unprintable-arg", "raise-with-unprintable-attr"] + ["raise-" + n for n in _builtin_exceptions()]
+            "args-not-a-pair", "raise-with-unprintable-arg", "raise-with-unprintable-attr", "raise-custom-BaseException", "raise-CancelledError"] + \
+    ["raise-" + n for n in _builtin_exceptions()]
+
+
+class ControlFlow(BaseException):
+    """an application-defined control-flow exception (neither Exception nor SystemExit/KeyboardInterrupt)"""
 
 
 def make_conn(cfg=None, channel=None):
@@ -123,6 +128,11 @@ def ob_dispatch_request(run, interp):
                     e = KeyError("k")
                     e.culprit = Unprintable()
                     raise e
+                if out == "raise-custom-BaseException":
+                    raise ControlFlow("stop")
+                if out == "raise-CancelledError":
+                    import asyncio
+                    raise asyncio.CancelledError()
                 if out.startswith("raise-"):
                     import builtins
                     cls = getattr(builtins, out[6:])
@@ -261,6 +271,12 @@ def spy(self, *a):
     if out == "raise-with-unprintable-arg": raise ValueError("bad thing", Unprintable())
     if out == "raise-with-unprintable-attr":
         e = KeyError("k"); e.culprit = Unprintable(); raise e
+    if out == "raise-custom-BaseException":
+        class ControlFlow(BaseException): pass
+        raise ControlFlow("stop")
+    if out == "raise-CancelledError":
+        import asyncio
+        raise asyncio.CancelledError()
     if out.startswith("raise-"):
         import builtins
         cls = getattr(builtins, out[6:])
